@@ -48,7 +48,7 @@
 (***************************************************************************)
 EXTENDS Integers, Sequences, FiniteSets, TLC, Json, SequencesExt
 
-CONSTANTS BaseNames,   \* subset of {"dense","sparse","arffd","arffs","catd","cats"}
+CONSTANTS BaseNames,   \* subset of {"dense","sparse","arffd","arffs","catd","cats","cats3"}
           MaxStages,   \* at most this many filters are stacked
           MaxAcc,      \* exactly this many accesses form a history
           Lite         \* TRUE: fewer stage variants / a shorter access alphabet (deeper bounds stay enumerable)
@@ -71,6 +71,7 @@ StrInt == [s \in Digits |-> CHOOSE n \in 0..9 : ToString(n) = s]
 EncOK(e, x) == CASE e = "id"  -> TRUE
                  [] e \in {"int","inc"} -> x.t \in {"i","f"} \/ (x.t = "s" /\ x.v \in Digits)
                  [] e = "str" -> x.t \in {"i","s"}
+                 [] OTHER -> TRUE                                   \* "none": the column has no encoder
 AsInt(x) == IF x.t = "s" THEN StrInt[x.v] ELSE x.v
 Enc(e, x) == CASE e = "id"  -> x
                [] e = "int" -> I(AsInt(x))
@@ -89,7 +90,12 @@ SparseRows == << ("0" :> I(1)) @@ ("2" :> S("3")),
                  ("0" :> I(5)) @@ ("1" :> S("6")) @@ ("3" :> I(8)),
                  ("1" :> I(2)) @@ ("2" :> I(0)) >>
 CatDRows   == << <<I(1),C("y",L3),S("u"),C("q",L2)>>, <<I(2),C("z",L3),S("v"),C("p",L2)>>, <<I(3),C("x",L3),S("w"),C("q",L2)>> >>
-CatSRows   == << ("0" :> I(1)) @@ ("1" :> C("y",L3)) @@ ("3" :> C("q",L2)),
+LB == <<"m","n">>
+CatSRows   == << ("0" :> I(1)) @@ ("1" :> C("n",LB)) @@ ("3" :> C("q",L2)),
+                 ("1" :> C("m",LB)) @@ ("2" :> S("v")) @@ ("3" :> C("p",L2)),
+                 ("1" :> C("n",LB)) @@ ("3" :> C("q",L2)) >>
+(* the same with a three-level categorical (used only directly under EncodeCatRows) *)
+CatS3Rows  == << ("0" :> I(1)) @@ ("1" :> C("y",L3)) @@ ("3" :> C("q",L2)),
                  ("1" :> C("z",L3)) @@ ("2" :> S("v")) @@ ("3" :> C("p",L2)),
                  ("1" :> C("x",L3)) @@ ("3" :> C("q",L2)) >>
 (* ARFF: attribute list and raw cell texts; "?" is ARFF's missing value *)
@@ -105,6 +111,7 @@ Base(b) == CASE b = "dense"  -> [kind |-> "dense",  src |-> "rows", rows |-> Den
              [] b = "sparse" -> [kind |-> "sparse", src |-> "rows", rows |-> SparseRows, attrs |-> <<>>]
              [] b = "catd"   -> [kind |-> "dense",  src |-> "rows", rows |-> CatDRows,   attrs |-> <<>>]
              [] b = "cats"   -> [kind |-> "sparse", src |-> "rows", rows |-> CatSRows,   attrs |-> <<>>]
+             [] b = "cats3"  -> [kind |-> "sparse", src |-> "rows", rows |-> CatS3Rows,  attrs |-> <<>>]
              [] b = "arffd"  -> [kind |-> "dense",  src |-> "arff", rows |-> ArffDRaw,   attrs |-> Attrs]
              [] b = "arffs"  -> [kind |-> "sparse", src |-> "arff", rows |-> ArffSRaw,   attrs |-> Attrs]
 
@@ -180,7 +187,7 @@ EncodeT(t, st) ==
 EncodeOK(t, st) ==
   IF t.kind = "dense"
   THEN \A r \in DOMAIN t.rows : \A p \in DOMAIN t.rows[r] : EncOK(EncAtPos(t, st.asg, p), t.rows[r][p])
-  ELSE \A r \in DOMAIN t.rows : \A k \in DOMAIN t.rows[r] : EncAtKey(st.asg, k) = "none" \/ EncOK(EncAtKey(st.asg, k), t.rows[r][k])
+  ELSE \A r \in DOMAIN t.rows : \A k \in DOMAIN t.rows[r] : EncOK(EncAtKey(st.asg, k), t.rows[r][k])
 
 DropT(t, st) ==
   LET keep == Survivors(t, st.pred) IN
@@ -234,7 +241,7 @@ HeadChoices(t) ==
 
 EncPat == <<"inc","id","str","int","inc","str","int","inc","id">>
 ColOK(t, p, e) == \A r \in DOMAIN t.rows : EncOK(e, t.rows[r][p])
-KeyOK(t, k, e) == \A r \in DOMAIN t.rows : k \notin DOMAIN t.rows[r] \/ EncOK(e, t.rows[r][k])
+KeyOK(t, k, e) == \A r \in DOMAIN t.rows : IF k \in DOMAIN t.rows[r] THEN EncOK(e, t.rows[r][k]) ELSE TRUE
 EncodeChoices(t) ==
   IF t.kind = "dense" THEN
     LET n == NCols(t)
@@ -398,7 +405,9 @@ vars == <<base, stack, tab, phase, hist, loaded>>
 
 Init == /\ base \in BaseNames /\ stack = <<>> /\ tab = InitTab(base) /\ phase = "build" /\ hist = <<>> /\ loaded = FALSE
 
-Building == phase = "build" /\ Len(stack) < MaxStages /\ ~tab.labeled        \* LabelRows is the last filter of a pipeline
+Building == /\ phase = "build" /\ Len(stack) < MaxStages
+            /\ ~tab.labeled                                 \* LabelRows is the last filter of a pipeline
+            /\ (base = "cats3" => stack = <<>>)
 Stage(st, t2) == /\ stack' = Append(stack, st) /\ tab' = t2 /\ UNCHANGED <<base, phase, hist, loaded>>
 
 DoHead == /\ Building /\ tab.hdr = <<>> /\ Base(base).src = "rows" /\ ~\E i \in DOMAIN stack : stack[i].op = "head"
@@ -410,7 +419,7 @@ DoDrop == /\ Building
 DoLabel == /\ Building
            /\ \E st \in LabelChoices(tab) : Stage(st, LabelT(tab, st))
 (* EncodeCatRows works on materialised rows (list / tuple / dict): it is the first filter over the plain cat tables *)
-DoEncodeCat == /\ Building /\ stack = <<>> /\ base \in {"catd", "cats"}
+DoEncodeCat == /\ Building /\ stack = <<>> /\ base \in {"catd", "cats", "cats3"}
                /\ \E st \in EncodeCatChoices : Stage(st, EncodeCatT(tab, st))
 (* the pipeline is read: from here on one row object is accessed again and again *)
 Pick == /\ phase = "build" /\ phase' = "access" /\ UNCHANGED <<base, stack, tab, hist, loaded>>
